@@ -214,10 +214,11 @@ theorem recovers_after_fault {s : CS} {c : Nat} (k : Nat) (hst : s.st = .connect
 
 /-! ### the reconnect task (C13) -/
 
-/-- only the four `reconn*` events look at or touch `reconn` / `reconnSlept`; a call uses up the wait -/
+/-- only the four `reconn*` events look at or touch `reconn` / `reconnSlept`; a call uses up the wait (the task may wait more
+than once before a call) -/
 theorem stepCore_reconn_frame {s t : CS} {e : Ev} (h : stepCore s e = some t) :
     (e = .reconnStart ∧ s.reconn = 0 ∧ t.reconn = 1 ∧ t.reconnSlept = false) ∨
-    (∃ ms, e = .reconnSleep ms ∧ 500 ≤ ms ∧ s.reconn = 1 ∧ s.reconnSlept = false ∧ t.reconn = 1 ∧ t.reconnSlept = true) ∨
+    (∃ ms, e = .reconnSleep ms ∧ 500 ≤ ms ∧ s.reconn = 1 ∧ t.reconn = 1 ∧ t.reconnSlept = true) ∨
     (e = .reconnEnd ∧ s.reconn = 1 ∧ t.reconn = 0 ∧ t.reconnSlept = s.reconnSlept) ∨
     (e = .reconnCall ∧ s.reconn = 1 ∧ s.reconnSlept = true ∧ t.reconn = 1 ∧ t.reconnSlept = false) ∨
     (e ≠ .reconnStart ∧ (∀ ms, e ≠ .reconnSleep ms) ∧ e ≠ .reconnEnd ∧ e ≠ .reconnCall ∧
@@ -228,7 +229,7 @@ theorem stepCore_reconn_frame {s t : CS} {e : Ev} (h : stepCore s e = some t) :
 
 theorem step_reconn_frame {s s' : CS} {e : Ev} (h : step s e = some s') :
     (e = .reconnStart ∧ s.reconn = 0 ∧ s'.reconn = 1 ∧ s'.reconnSlept = false) ∨
-    (∃ ms, e = .reconnSleep ms ∧ 500 ≤ ms ∧ s.reconn = 1 ∧ s.reconnSlept = false ∧ s'.reconn = 1 ∧ s'.reconnSlept = true) ∨
+    (∃ ms, e = .reconnSleep ms ∧ 500 ≤ ms ∧ s.reconn = 1 ∧ s'.reconn = 1 ∧ s'.reconnSlept = true) ∨
     (e = .reconnEnd ∧ s.reconn = 1 ∧ s'.reconn = 0 ∧ s'.reconnSlept = s.reconnSlept) ∨
     (e = .reconnCall ∧ s.reconn = 1 ∧ s.reconnSlept = true ∧ s'.reconn = 1 ∧ s'.reconnSlept = false) ∨
     (e ≠ .reconnStart ∧ (∀ ms, e ≠ .reconnSleep ms) ∧ e ≠ .reconnEnd ∧ e ≠ .reconnCall ∧
@@ -301,7 +302,7 @@ theorem sleep_between_calls {es : List Ev} {s s' : CS} {i j : Nat} (h : runTrace
         exact ⟨k + 1, ms, Nat.succ_lt_succ hk1, Nat.succ_lt_succ hk2, by rw [List.getElem?_cons_succ]; exact he, hms⟩
 
 theorem step_reconn_le {s s' : CS} {e : Ev} (hs : s.reconn ≤ 1) (h : step s e = some s') : s'.reconn ≤ 1 := by
-  rcases step_reconn_frame h with ⟨-, -, h1, -⟩ | ⟨_, -, -, -, -, h1, -⟩ | ⟨-, -, h1, -⟩ | ⟨-, -, -, h1, -⟩ | ⟨-, -, -, -, h1, -⟩ <;>
+  rcases step_reconn_frame h with ⟨-, -, h1, -⟩ | ⟨_, -, -, -, h1, -⟩ | ⟨-, -, h1, -⟩ | ⟨-, -, -, h1, -⟩ | ⟨-, -, -, -, h1, -⟩ <;>
     omega
 
 theorem runTrace_reconn_le {s s' : CS} {evs : List Ev} (hs : s.reconn ≤ 1) (h : runTrace s evs = some s') :
@@ -336,7 +337,7 @@ theorem reconnInv_step {evs : List Ev} {s s' : CS} {e : Ev} (hi : ReconnInv evs 
       · obtain ⟨ms, h4, h5⟩ := hw h3
         exact ⟨ms, h4, List.mem_append_left _ h5⟩
       · exact ⟨ms, h3, by simp⟩
-  rcases step_reconn_frame h with ⟨rfl, -, -, h2⟩ | ⟨ms, rfl, h2, h3, -, -, -⟩ | ⟨-, -, h2, -⟩ |
+  rcases step_reconn_frame h with ⟨rfl, -, -, h2⟩ | ⟨ms, rfl, h2, h3, -, -⟩ | ⟨-, -, h2, -⟩ |
       ⟨rfl, h2, h3, -, -⟩ | ⟨h2, -, -, -, h3, h4⟩
   · exact ⟨evs, [], rfl, by simp, fun h3 => by rw [h2] at h3; cases h3⟩
   · exact ext (by simp) h3 (fun _ => Or.inr ⟨ms, h2, rfl⟩)
